@@ -90,7 +90,10 @@ func vNewWorld(mode abciAPI.ContextMode, withPool bool) *vWorld {
 	if withPool {
 		e := accts[w.escrow]
 		e.Escrow.Active.Balance = *vQ("actBal")
-		e.Escrow.Debonding.Balance = *vQ("debBal")
+		lean := symx.Cfg("lean", 0) == 1 // no debonding pool / delegations (operations that never touch them)
+		if !lean {
+			e.Escrow.Debonding.Balance = *vQ("debBal")
+		}
 		_ = total.Add(&e.Escrow.Active.Balance)
 		_ = total.Add(&e.Escrow.Debonding.Balance)
 		for i := 0; i < 2; i++ {
@@ -98,6 +101,9 @@ func vNewWorld(mode abciAPI.ContextMode, withPool bool) *vWorld {
 			_ = e.Escrow.Active.TotalShares.Add(&d.Shares)
 			if !d.Shares.IsZero() {
 				vMust(w.state.SetDelegation(w.ctx, w.addrs[i], w.addrs[w.escrow], d), "SetDelegation")
+			}
+			if lean {
+				continue
 			}
 			// debonding end epochs around the current epoch (they are part of state keys, kept concrete per path)
 			w.debEnd[i] = vEpoch - 1 + beacon.EpochTime(symx.Choose(symx.N("debEnd", i), 3))
@@ -115,6 +121,18 @@ func vNewWorld(mode abciAPI.ContextMode, withPool bool) *vWorld {
 		}
 		symx.Assume(!e.Escrow.Active.TotalShares.IsZero() || e.Escrow.Active.Balance.IsZero())
 		symx.Assume(!e.Escrow.Debonding.TotalShares.IsZero() || e.Escrow.Debonding.Balance.IsZero())
+		if symx.Cfg("pool2", 0) == 1 && w.escrow != 1 {
+			// a second escrow account: B with an active pool held by its own self-delegation
+			b := accts[1]
+			b.Escrow.Active.Balance = *vQ("actBal2")
+			_ = total.Add(&b.Escrow.Active.Balance)
+			d := &staking.Delegation{Shares: *vQ("selfShares2")}
+			_ = b.Escrow.Active.TotalShares.Add(&d.Shares)
+			if !d.Shares.IsZero() {
+				vMust(w.state.SetDelegation(w.ctx, w.addrs[1], w.addrs[1], d), "SetDelegation")
+			}
+			symx.Assume(!b.Escrow.Active.TotalShares.IsZero() || b.Escrow.Active.Balance.IsZero())
+		}
 	}
 	for i := 0; i < 3; i++ {
 		vMust(w.state.SetAccount(w.ctx, w.addrs[i], accts[i]), "SetAccount")
@@ -131,7 +149,10 @@ func vNewWorld(mode abciAPI.ContextMode, withPool bool) *vWorld {
 	p.MinTransferAmount = *vQ("minTransfer")
 	p.MinTransactBalance = *vQ("minTransactBalance")
 	p.MinDelegationAmount = *vQ("minDelegation")
-	p.DebondingInterval = beacon.EpochTime(1 + symx.Choose("debondingInterval", 2))
+	p.DebondingInterval = 1
+	if symx.Cfg("lean", 0) == 0 {
+		p.DebondingInterval = beacon.EpochTime(1 + symx.Choose("debondingInterval", 2))
+	}
 	p.MaxAllowances = 2
 	w.params = p
 	return w
